@@ -13,7 +13,10 @@ Reads (never writes)
         closed (close_continuation_marks before the mark is forgotten) or taken first (`.take()` ⇒ never closed);
       * Continuation::set_state_from_continuation, open path: the condition under which the mark is closed when its
         own frame is popped (`weak_count == 1 && strong_count > 1`, or `strong_count > 1`);
-      * handler found with no frame below: is a dummy frame pushed.
+      * handler found with no frame below: is a dummy frame pushed;
+      * both unwind loops: is the handler uninstalled from its frame before it runs on it (`handler.take()` in the
+        test, or `attachments.handler = None` before the frame is pushed back);
+      * do continuations keep the instructions of their top-level form alive (`current_root` / `root`).
 and regenerates lean/SteelVerif/C08/GenCode.lean.  Prints what it extracted (JSON).  An extraction that no longer
 parses exits 2 (broken tie).
 """
@@ -134,6 +137,7 @@ def rust_part():
     close_on_unwind = []
     dummy = []
     walks = []
+    uninstalled = []
     for st in loops:
         body = src[st:st + 6000]
         c = body.find("close_continuation_marks(&last)")
@@ -150,10 +154,22 @@ def rust_part():
         walks.append(first and guarded)
         take = body.find("weak_continuation_mark.take()")
         close_on_unwind.append(not (0 <= take < c))
-        h = body.find("x.handler.take()")
-        if h < 0:
+        # the handler test of the loop: `if let Some(handler) = last…handler… {`.  The handler must be UNINSTALLED
+        # from the frame before the frame is pushed back to run the handler on it (`Model.unwind`: handler := none):
+        # either the test itself takes it (`handler.take()`), or the branch sets `attachments.handler = None`
+        # before `stack_frames.push(last)`.  Otherwise an error raised by the handler comes back to the same handler.
+        hm = re.search(r"if let Some\(handler\) =\s*last\b[^{;]*\{", body)
+        if not hm or "handler" not in hm.group(0)[len("if let Some(handler)"):]:
             die("unwind loop without handler search")
+        h = hm.start()
         hb = body[h:h + 2500]
+        branch_end = body.find("continue 'outer;", hm.end())
+        push = body.find("stack_frames.push(last)", hm.end())
+        if branch_end < 0 or push < 0 or push > branch_end:
+            die("unwind loop: the handler branch does not push the frame back and continue 'outer")
+        taken = "handler.take()" in hm.group(0)
+        cleared = re.search(r"attachments\.handler\s*=\s*None", body[hm.end():push]) is not None
+        uninstalled.append(taken or cleared)
         dummy.append(bool(re.search(r"stack_frames\.is_empty\(\)\s*\{[^}]*?stack_frames\.push\(\s*StackFrame::new\(", hb, re.S)))
     if len(set(close_on_unwind)) != 1 or len(set(dummy)) != 1:
         die("the two unwind loops differ: close=%s dummy=%s" % (close_on_unwind, dummy))
@@ -181,6 +197,7 @@ def rust_part():
                   and re.search(r"continuation\.root\s*=\s*open\.root\.clone\(\)", src) is not None)
     return {"close_on_unwind": close_on_unwind[0] and all(walks) and not bypass, "mark_closed_before_taken": close_on_unwind[0],
             "unwind_walks_every_frame": all(walks) and not bypass,
+            "handler_uninstalled_before_it_runs": all(uninstalled), "handler_uninstalled_per_loop": uninstalled,
             "dummy_frame": dummy[0], "close_when_shared": close_when_shared, "continuation_keeps_root": keeps_root,
             "open_path_condition": cond_txt}
 
@@ -212,6 +229,9 @@ def windHandlerGuarded : Bool := %s
 /-- vm.rs: a continuation holds the instructions of the top-level form its frames return into (K08h). -/
 def continuationKeepsRoot : Bool := %s
 
+/-- vm.rs: both unwind loops take the handler off the frame before the handler runs on it (`Model.unwind`). -/
+def handlerUninstalled : Bool := %s
+
 /-- vm.rs: what the VM model is parameterised by.  closeOnUnwind = the mark of a popped frame is closed before it is
 taken AND every frame an error drops goes through the unwind loop (no path that clears the frames before it). -/
 def codeCfg : Model.Cfg := { closeOnUnwind := %s, closeWhenShared := %s, dummyFrame := %s }
@@ -219,7 +239,7 @@ def codeCfg : Model.Cfg := { closeOnUnwind := %s, closeWhenShared := %s, dummyFr
 end SteelVerif.C08.GenCode
 """ % (json.dumps(s), json.dumps(r), s["cmp"], b(s["wrapper_guard_eq"]), b(s["wind_pushes_fresh_pair"]),
        b(s["wind_normal_pops_runs_out"]), b(s["wind_handler_pops_runs_out_reraises"]), b(s["wind_handler_guarded"]),
-       b(r["continuation_keeps_root"]), b(r["close_on_unwind"]), b(r["close_when_shared"]), b(r["dummy_frame"]))
+       b(r["continuation_keeps_root"]), b(r["handler_uninstalled_before_it_runs"]), b(r["close_on_unwind"]), b(r["close_when_shared"]), b(r["dummy_frame"]))
     path = os.path.join(VERIF, "lean", "SteelVerif", "C08", "GenCode.lean")
     old = open(path).read() if os.path.exists(path) else None
     if old != out:
